@@ -15,7 +15,7 @@ DOMAINS = {
     "lexer": {"letter": "L", "header_tokens": 3},
     "match": {"letter": "M", "header_tokens": 6},
     "p01": {"letter": "P", "header_tokens": 4}, "p02": {"letter": "P", "header_tokens": 4}, "p05": {"letter": "P", "header_tokens": 4},
-    "p04": {"letter": "P", "header_tokens": 4}, "p17": {"letter": "P", "header_tokens": 4},
+    "p04": {"letter": "P", "header_tokens": 4}, "p07": {"letter": "P", "header_tokens": 4}, "p17": {"letter": "P", "header_tokens": 4},
     "errstr": {"letter": "E", "header_tokens": 5}, "buffmt": {"letter": "F", "header_tokens": 9}, "expr": {"letter": "X", "header_tokens": 4},
     "p06": {"letter": "P", "header_tokens": 4}, "p08": {"letter": "P8", "header_tokens": 4}, "p09": {"letter": "P9", "header_tokens": 4},
 }
@@ -134,6 +134,10 @@ PROPS["C16"] = {"module": "ScpiVerif.Props.C16", "domains": [{"name": "buffmt", 
     "trusted_base": [KERNEL, CORR, PLATFORM, "printf build: snprintf(%g / %.15lg) of glibc is correctly rounded (trusted); own formatter: digit generation uses C double arithmetic (trusted IEEE-754)"],
     "assumptions": ["Model/Dtostre.lean transcribes the string assembly of SCPI_dtostre; digit generation (scpi_ecvt) is corresponded, not proved"],
     "rule": "cases as C15; judged against the exact rational value of the bit pattern: within half a unit (printf build) / one unit (own formatter) of the last requested significant digit"}
+PROPS["C07"] = {"module": "ScpiVerif.Props.C07", "domains": [{"name": "p07", "cfgs": ["A"]}, {"name": "intfmt", "cfgs": ["A"]}], "clauses": ["C07."], "level": "proof",
+    "trusted_base": [KERNEL, CORR, PLATFORM, "libc number conversion as specified in Model/Prim.lean; float closeness rests on printf/strtod of the C library (trusted, compared on every run)"],
+    "assumptions": ["writer side from C14 / C17 / C18, lexer side from C13, reader side from the context model"],
+    "rule": "cases = a result script and the response it produced re-submitted as the parameter of the matching reader: all 2^8 and 2^16 values, boundary and random 32/64-bit values in bases 2, 8, 10, 16, strings over an alphabet with both quotes, blocks of 0..1100 random bytes, random and boundary floats / doubles; non-trivial = every case"}
 PROPS["C01"] = _pprop("ScpiVerif.Props.C01", [{"name": "p01", "cfgs": ["A", "B", "C", "D"]}, {"name": "lexer", "cfgs": ["A"]}], ["C01."],
     "mutated messages (byte flips, deletions, insertions, syntax characters, truncation), input buffers of 2..200 bytes, queue capacities 1..4, random segmentation with over-long chunks and zero-length calls, in all four build configurations under ASan+UBSan with the buffer-tail poisoning hook")
 
@@ -162,7 +166,7 @@ _T["C20"] = ("Theorems text_intact_or_absent / empty_means_reusable / fits_means
 _T["C03"] = ("Theorems: for every pattern of the property's grammar that satisfies the side condition and every header over the header alphabet, the model of matchCommand accepts iff the header is in the pattern's short/long-form language, and reports the numeric suffixes in keyword order with the caller's default for omitted ones.",
             "Lean kernel + standard axioms; model tied to utils.c by pattern-directed differential testing; Spec/Pattern.lean is the reading of the property",
             "Lean 4 theorem (greedy walker = declarative language under the side condition) + differential correspondence")
-for _k in ("C02", "C06", "C08", "C09", "C05", "C01", "C04", "C17", "C18", "C19", "C15", "C16"):
+for _k in ("C02", "C06", "C08", "C09", "C05", "C01", "C04", "C17", "C18", "C19", "C15", "C16", "C07"):
     _T[_k] = ("(theorems in progress)", "Lean kernel + standard axioms; context model tied to parser.c by scripted differential testing", "Lean 4 theorems over the context model + differential correspondence")
 _T["C18"] = ("Theorems resultError_one_part / resultError_two_parts: for every 16-bit code, every description and every NUL-free text of any length and content, in the one-part (malloc) and two-part (static heap, wrapped) layouts, the model of SCPI_ResultError writes exactly response(code, description, text) of Spec/ErrorString.lean; response_shape: that response is the code, a comma and one 488.2 string whose unescaped content is the longest prefix of description;text that fits 255 escaped characters; escape_injective; description_total over the generated error list.",
             "Lean kernel + standard axioms; translator for LIST_OF_ERRORS and the 255 limit; model tied to parser.c/error.c by differential testing in three configurations (texts wrapped around the heap end included) and an independent reader of the response",
@@ -182,6 +186,9 @@ _T["C02"] = ("Theorem dispatch_correct: for every context, every command table w
 _T["C05"] = ("Theorems: missing_parameter (-109 for a mandatory, silence and absence for an optional one), reader_failure_has_error (no typed reader fails without queuing an error unless optional and absent), reader_success_is_silent, reader_by_token (the outcome of every reader on the token SCPI_Parameter delivers is the property's table: -104 / -138 / -131 / -224), parameter_delivers_next_item (comma discipline -103, next element of the data specification delivered whole with its extent, -151 otherwise), unit_accounting (-200 iff the handler failed without an error of its own, -108 iff unread data remains and nothing was queued). Hypotheses: choice names contain no NUL / '#'; the -350 overflow marker is not counted as an error of the unit.",
             "Lean kernel + standard axioms; Spec/Params.lean is the property's table; libc strto* as specified in Model/Prim.lean; context model tied to parser.c/units.c by scripted differential testing with every reader x every data type",
             "Lean 4 theorems (readers = specification table) + differential correspondence")
+_T["C09"] = ("Theorems input_noninterference / stream_noninterference: two contexts that agree on what is meant to persist (command table, buffer size and pending input bytes, status registers, error queue as an abstract FIFO) and differ arbitrarily in everything else (output_count, first_output, arbitrary_remaining, cmd_error, input_count, parameter cursor, matched entry, cmd_raw, stale buffer bytes, ring positions, history) produce identical observations (handler invocations, parameters, errors, output bytes, flushes, return values) on ANY stream of chunks and remain related; unit_reset: processCommand overwrites the per-unit fields before use.",
+            "Lean kernel + standard axioms; context model tied to parser.c by scripted differential testing, including the experiment 'B after A versus B on a fresh context given A's registers and queue'",
+            "Lean 4 non-interference proof (simulation relation over the whole context model) + differential correspondence")
 _T["C01"] = ("PARTIAL BY NATURE. Theorems (Props/C01.lean): every recogniser keeps its cursor and token extent inside its input (from the C13 theorems, block recogniser included); the unit detector always makes progress and never leaves its input, so the unit loop of SCPI_Parse and the scan loop of SCPI_Input terminate; SCPI_Parse never exhausts its step budget, never composes a header before the start of the buffer and modifies no byte outside the message; SCPI_Input keeps position < buffer length for every chunk history; an over-long chunk copies nothing; SCPI_ParamCopyText and the array readers never store beyond the caller's capacity. These are statements about the algorithm as modelled: a C-level out-of-bounds read caused by a broken check-then-read pair, signed overflow or libc reading past a token cannot be exhibited by the model; for those the evidence is testing: every correspondence domain runs under ASan+UBSan with exact-size heap objects, canaries, a watchdog and the guarded buffer-tail poisoning hook, in four build configurations.",
             "Lean kernel + standard axioms for the bounds/termination theorems; memory safety and undefined arithmetic of the C code itself are observed by sanitizers under the generators (testing)",
             "Lean 4 bounds and termination theorems over the model + sanitizer-instrumented differential correspondence")
@@ -189,5 +196,5 @@ for _k, (_a, _b, _c) in _T.items():
     PROPS[_k]["level_text"], PROPS[_k]["level_note"], PROPS[_k]["technique"] = _a, _b, _c
 
 # properties whose theorem module is not complete yet are not claimed
-for _k in ("C08", "C09", "C04", "C15", "C16"):  # unclaimed
+for _k in ("C08", "C04", "C15", "C16", "C07"):  # unclaimed
     PROPS[_k]["unclaimed"] = True
